@@ -37,6 +37,17 @@ func main() {
 			os.Exit(2)
 		}
 	}()
+	core.NamesFile = filepath.Join(filepath.Dir(filepath.Dir(func() string { e, _ := os.Executable(); return e }())), "testdata", "names.json")
+	if os.Args[1] == "gen-names" {
+		// records today's parameter and local names (see internal/core/names.go); run by hand
+		// when the rules are adapted to a new version of the repository, never by a check
+		core.NamesFile = ""
+		c := core.NewCtx("DBG", "quick")
+		c.Load("./amd/...", "./nvidia/...")
+		n := c.GenNames(os.Args[2])
+		fmt.Println("functions recorded:", n)
+		return
+	}
 	if os.Args[1] == "debug-proto" {
 		c := core.NewCtx("DBG", "quick")
 		c.Load(os.Args[2:]...)
